@@ -185,21 +185,25 @@ def run(tier, seed):
             for otxt, oexp in OPTS:
                 cases.append((ddl, ety, esz, pos, otxt, oexp, set()))
     tasks = []
-    for s, ety, esz, pos, otxt, oexp, tag in cases:
-        cols = ["p1 int NOT NULL", "p2 varchar(7)"]
+    for ci, (s, ety, esz, pos, otxt, oexp, tag) in enumerate(cases):
+        # every second case stands among neighbours that are nested types themselves, a sized column between two of them
+        cols = ["p1 int NOT NULL", "p2 varchar(7)"] if ci % 2 == 0 else ["p1 MAP<string, int> NOT NULL", "p2 varchar(7)", "p3 STRUCT<f1:int, f2:string>"]
         cols.insert(pos, f"focus {s}{otxt}")
         # every third case stands behind an unsupported statement holding a stray `>` (the nesting counter must not leak)
         pre = "CREATE VIEW v0 AS SELECT a FROM t0 WHERE a > 0;\n" if (len(tasks) % 3 == 0 and not tag) else ""
         tasks.append((pre + "CREATE TABLE t1 (" + ", ".join(cols) + ");\n", {}, {}))
     outs, nu = C.parse_many(tasks)
-    for (s, ety, esz, pos, otxt, oexp, tag), tk, o in zip(cases, tasks, outs):
+    for ci, ((s, ety, esz, pos, otxt, oexp, tag), tk, o) in enumerate(zip(cases, tasks, outs)):
         case = {"ddl": tk[0], "type": s, "position": pos + 1, "option": otxt.strip(), "spec_dev": sorted(tag)}
+        ncols = 3 if ci % 2 == 0 else 4
+        want_others = [("p1", "int", None, False), ("p2", "varchar", 7, True)] if ci % 2 == 0 else \
+                      [("p1", "MAP<string,int>", None, False), ("p2", "varchar", 7, True), ("p3", "STRUCT<f1:int,f2:string>", None, True)]
         paths = []
         if o[0] != "ok":
             paths = ["raised"]
         else:
             tabs = [e for e in o[1] if "table_name" in e]
-            if len(tabs) != 1 or len(tabs[0]["columns"]) != 3:
+            if len(tabs) != 1 or len(tabs[0]["columns"]) != ncols:
                 paths = ["table"]
             else:
                 cs = tabs[0]["columns"]
@@ -207,6 +211,11 @@ def run(tier, seed):
                 got = re.sub(r"\s+", "", f["type"] or "")
                 if f["name"] != "focus" or got.lower() != ety.lower() or not balanced(f["type"] or ""):
                     paths.append("type")
+                elif "<" not in s:
+                    # a non-nested type is reported word for word: the written words without the size, ` ARRAY` as `[]`
+                    exact = re.sub(r"\s*\([^)]*\)", "", s).replace(" ARRAY", "[]").strip()
+                    if f["type"] != exact:
+                        paths.append("type")
                 size = f.get("size")
                 if isinstance(size, tuple):
                     size = list(size)
@@ -216,7 +225,7 @@ def run(tier, seed):
                     if f.get(k2) != v2:
                         paths.append("option")
                 others = [c for i, c in enumerate(cs) if i != pos]
-                if [(c["name"], c["type"], c["size"], c["nullable"]) for c in others] != [("p1", "int", None, False), ("p2", "varchar", 7, True)]:
+                if [(c["name"], re.sub(r"\s+", "", c["type"] or ""), c["size"], c["nullable"]) for c in others] != want_others:
                     paths.append("neighbours")
             case["observed"] = [(c["name"], c["type"], c["size"]) for c in tabs[0]["columns"]] if len(tabs) == 1 else None
         if paths:
